@@ -342,6 +342,37 @@ def r23_7(ctx, rep):
         raise MechanismMissing(R, "expected the gather and the transpose definition of the mapped value, found %d definition(s)" % n)
 
 
+@SPEC.rule(
+    "R23.8",
+    "a for-loop stops being `the current loop` when it is left, on every path: each exit handler of the CasADi generator whose enter "
+    "handler pushes onto self.for_loops pops it on every path to its end — also for an empty range. A loop left on the stack makes a "
+    "later plain subscript `x[k]` (k a parameter named like the old loop index) a loop subscript, which bypasses the range check",
+)
+def r23_8(ctx, rep):
+    R = "R23.8"
+    ms = ctx.methods(GEN, "Generator", R)
+    n = 0
+    for name, fn in sorted(ms.items()):
+        if not name.startswith("enter"):
+            continue
+        pushes = {norm(c.func.value) for c in calls(fn) if isinstance(c.func, ast.Attribute) and c.func.attr == "append" and norm(c.func.value).startswith("self.")
+                  and any(isinstance(a, ast.Call) and (call_name(a) or "").endswith("ForLoop") for a in c.args)}
+        for stack in sorted(pushes):
+            twin = ms.get("exit" + name[len("enter"):])
+            n += 1
+            if twin is None:
+                rep.ob(R, GEN + ":Generator." + name, "push onto %s has an exit handler" % stack, False, "no exit handler pops what %s pushes" % name)
+                continue
+            cfg = CFG(twin, R)
+            pops = {x.id for x in cfg.stmts() if any(isinstance(c.func, ast.Attribute) and c.func.attr == "pop" and norm(c.func.value) == stack for c in calls(x.ast))}
+            bad = cfg.must_pass(cfg.entry, cfg.exit, pops) if pops else [cfg.nodes[cfg.entry]]
+            rep.ob(R, GEN + ":Generator." + twin.name, "%s.pop() on every path" % stack, bool(pops) and bad is None,
+                   "the handler can finish without popping the loop that %s pushed: everything generated afterwards is treated as being inside that loop" % name,
+                   path=cfg.describe(bad) if bad and pops else "")
+    if n < 2:
+        raise MechanismMissing(R, "expected the for-equation and the for-statement push/pop pairs, found %d" % n)
+
+
 # -- seeded variants ---------------------------------------------------------
 from ._mut import replace_in_func  # noqa: E402
 
@@ -457,6 +488,21 @@ def _m_no_gather(mod):
                             lst[i] = ast.If(test=ast.parse("isinstance(indices, np.ndarray) and indices.size == orig_symbol.size1()", mode="eval").body,
                                             body=ast.parse("indexed_symbol = orig_symbol").body, orelse=[st])
                             return True
+        return False
+
+    return mod if replace_in_func(mod, "Generator.exitForEquation", edit) else None
+
+
+@SPEC.mutant("empty-range loops stay on the loop stack", GEN, "R23.8", "on every path")
+def _m_loop_left(mod):
+    def edit(fn):
+        for i, st in enumerate(fn.body):
+            if isinstance(st, ast.Assign) and norm(st.value) == "self.for_loops.pop()":
+                st.value = ast.parse("self.for_loops[-1]", mode="eval").body
+                for nxt in fn.body[i + 1:]:
+                    if isinstance(nxt, ast.If):
+                        nxt.body.append(ast.parse("self.for_loops.pop()").body[0])
+                        return True
         return False
 
     return mod if replace_in_func(mod, "Generator.exitForEquation", edit) else None
